@@ -25,7 +25,7 @@ def profile(prop, tier):
         p["k_weights"] = [(2, 5), (3, 2), (4, 0.3)]
     elif prop == "C17":
         p["clients"] = {"coder": 0.5, "designer": 0.3, "converter": 0.5, "analyst": 8, "shuffler": 2, "trimmer": 0.5,
-                        "rng": 3, "clock": 0.3}
+                        "rng": 3, "clock": 1.5}
         p["k_weights"] = [(2, 5), (3, 4), (4, 1)]
         p["max_ops"] = (10, 40)
     return p
@@ -150,12 +150,19 @@ class Sim(object):
             new = {"op": "NEW", "kind": "graph", "name": self.fresh_name("G"), "k": k, "arcs": arcs}
             if rng.random() < 0.35:
                 new["lm_order"] = rng.getrandbits(20)      # successor lists in arbitrary (user-supplied) order
+            if rng.random() < 0.2:
+                new["layout"] = rng.choice(["F", "view"])  # Fortran-ordered / non-contiguous accessor
+            if rng.random() < 0.15:
+                new["lm_type"] = "defaultdict"             # a latter map built with collections.defaultdict(list)
             self.do(new)
         for k in sorted(set(ks)):
             self.do({"op": "NEW", "kind": "mask", "name": self.fresh_name("K"), "k": k, "bits": G.random_mask(rng, k),
                      "dtype": rng.choice(["bool", "int"])})
             digits = "".join("".join(map(str, rng.sample(range(4), 4))) for _ in range(4 ** k))
-            self.do({"op": "NEW", "kind": "table", "name": self.fresh_name("T"), "k": k, "digits": digits})
+            tab = {"op": "NEW", "kind": "table", "name": self.fresh_name("T"), "k": k, "digits": digits}
+            if rng.random() < 0.3:
+                tab["dtype"] = rng.choice(["uint8", "int8", "int32", "uint16"])
+            self.do(tab)
             self.do({"op": "NEW", "kind": "filter", "name": self.fresh_name("F"), "cfg": G.random_filter(rng, k)})
         for _ in range(rng.randint(1, 3)):
             L = rng.choice([0, 1, 7, 8, rng.randint(0, 40)])
@@ -191,6 +198,10 @@ class Sim(object):
         new = {"op": "NEW", "kind": "pair", "name": name, "from": rng.choice(graphs), "numpy_keys": rng.random() < 0.5}
         if rng.random() < 0.3:
             new["lm_order"] = rng.getrandbits(20)
+        if rng.random() < 0.2:
+            new["layout"] = rng.choice(["F", "view"])
+        if rng.random() < 0.15:
+            new["lm_type"] = "defaultdict"
         self.do(new)
         self.flags[name] = (rng.random() < 0.7, rng.random() < 0.7)
         return name
